@@ -235,6 +235,71 @@ def interannual_cases(tier, res, problems, boost):
                                      f"L//2+S//2={k_near} days away from it were changed", case))
 
 
+def reuse_cases(tier, res, problems, boost):
+    """Locality on a REUSED instance whose time arrays were refilled in place (session 4, after seeded change C08-19).
+
+    The property quantifies over every call; the cases above build a fresh debiaser and fresh time arrays per run, so state kept on the instance
+    between calls (anything memoised per array object) never sat between the perturbed data and the compared value.  Here one instance is
+    applied to calendar A, the SAME numpy time arrays are refilled in place with calendar B (shifted by 100..265 days), and locality is checked
+    for calendar B on that instance: changing values more than L//2 + S//2 days (circularly) from the target day must leave it bit-identical.
+    Own PRNG stream."""
+    import datetime
+    rng = random.Random(C.seed() * 104729 + 1908)
+    n_cases = (6 if tier == "quick" else 40) * (3 if boost else 1)
+    names = ["LinearScaling", "ECDFM", "QuantileMapping", "DeltaChange"]
+    for n_case in range(n_cases):
+        name = names[n_case % len(names)]
+        if name not in probes.window_debiasers(31, 1):
+            continue
+        S = rng.choice([1, 5, 15]); L = S + rng.choice([4, 16, 30])
+        Ln, Sn = L + (L % 2 == 0), S + (S % 2 == 0)
+        k_near = Ln // 2 + Sn // 2
+        n = 365 * 3 + rng.randint(0, 40)
+        np_seed = rng.randint(0, 2**31 - 2)
+        nprs = np.random.RandomState(np_seed)
+        shift = rng.randint(100, 265)
+        startA = datetime.date(2001 + rng.randint(0, 3), rng.randint(1, 12), rng.randint(1, 28))
+        mkdates = lambda st: np.array([st + datetime.timedelta(days=i) for i in range(n)])  # noqa: E731
+        times = [mkdates(startA) for _ in range(3)]
+        data = [283.0 + 2 * i + 4.0 * nprs.standard_normal(n) for i in range(3)]
+        deb = probes.window_debiasers(L, S)[name]()
+        via = "apply" if n_case % 2 else "apply_location"
+        case = {"what": "locality-reused-instance/" + name, "L": L, "S": S, "n": n, "np_seed": np_seed, "startA": str(startA), "shift_days": shift,
+                "called_through": via, "seed": C.seed()}
+
+        def run_deb(d):
+            with warnings.catch_warnings():
+                warnings.simplefilter("ignore")
+                if via == "apply_location":
+                    return np.asarray(deb.apply_location(d[0], d[1], d[2], times[0], times[1], times[2]))
+                return np.asarray(deb.apply(d[0][:, None, None], d[1][:, None, None], d[2][:, None, None], progressbar=False,
+                                            time_obs=times[0], time_cm_hist=times[1], time_cm_future=times[2]))[:, 0, 0]
+        try:
+            run_deb([x.copy() for x in data])                       # calendar A
+            newdates = mkdates(startA + datetime.timedelta(days=shift))
+            for tarr in times:
+                tarr[:] = newdates                                   # the same array objects, calendar B
+            doys = np.array([d.timetuple().tm_yday for d in newdates])
+            ti = rng.randrange(n); t = int(doys[ti]); targets = np.where(doys == t)[0]
+            a = run_deb([x.copy() for x in data])
+            far = ~near_mask(k_near, t, doys)
+            pert = [x.copy() for x in data]
+            for x in pert:
+                x[far] = x[far] * 3 + 50.0
+            b = run_deb(pert)
+        except Exception as ex:  # noqa: BLE001
+            problems.append((f"{name} [reused instance]: {type(ex).__name__} on well-formed input: {str(ex)[:120]}", case))
+            continue
+        res.count(("reuse", name, L, S, via, shift, t), True, sample={**case, "target_doy": t})
+        bad = ~((a[targets] == b[targets]) | (np.isnan(a[targets]) & np.isnan(b[targets])))
+        if bad.any():
+            problems.append((f"{name} [reused instance, time arrays refilled in place]: the value on day {t} changed in {int(bad.sum())} of {targets.size} "
+                             f"years after changing only values more than L//2+S//2={k_near} days away", {**case, "target_doy": t,
+                                                                                                      "target_indices": [int(i) for i in targets]}))
+    res.extra["oracle_reused_instance_runs"] = n_cases
+
+
+
 def _relayout(a, kind):
     """the same logical (t, x, y) array in another memory layout"""
     if kind == "F":
@@ -847,6 +912,9 @@ def run(tier, res, force_search=False):
 
     # ---- the same oracle for every kind of input object `apply` accepts (dtypes, masked arrays with invalid cells, layouts, grids)
     presentation_cases(tier, res, problems, bool(force_search or not lean_ok or mismatches))
+
+    # ---- the same oracle on one instance reused after its time arrays were refilled in place
+    reuse_cases(tier, res, problems, bool(force_search or not lean_ok or mismatches))
 
     seen = set()
     for p, case in problems:
